@@ -739,8 +739,9 @@ impl MDL {
                             shape_value.base_indices_index
                                 >= model.meshes[j as usize].start_index as u16
                                 && shape_value.base_indices_index
-                                    < (model.meshes[j as usize].start_index
-                                        + model.meshes[j as usize].index_count)
+                                    < model.meshes[j as usize]
+                                        .start_index
+                                        .wrapping_add(model.meshes[j as usize].index_count)
                                         as u16
                         })
                         .collect();
@@ -749,11 +750,13 @@ impl MDL {
 
                     if !shape_values.is_empty() {
                         for shape_value in shape_values {
-                            let old_vertex =
-                                vertices[indices[shape_value.base_indices_index as usize] as usize];
-                            let new_vertex = vertices[shape_value.replacing_vertex_index as usize];
-                            let vertex = &mut morphed_vertices
-                                [indices[shape_value.base_indices_index as usize] as usize];
+                            // both the index and the vertices it names come from the file
+                            let base_index =
+                                *indices.get(shape_value.base_indices_index as usize)? as usize;
+                            let old_vertex = *vertices.get(base_index)?;
+                            let new_vertex =
+                                *vertices.get(shape_value.replacing_vertex_index as usize)?;
+                            let vertex = &mut morphed_vertices[base_index];
 
                             vertex.position[0] = new_vertex.position[0] - old_vertex.position[0];
                             vertex.position[1] = new_vertex.position[1] - old_vertex.position[1];
